@@ -1,7 +1,7 @@
 """C13 - capture results and switching-activity counts faithfully summarise waveforms.
 
 W1: capture function on every waveform x capture times; kernel rise/fall counts and overflow soundness on
-the C03 kernel space.  W2: circuits x stimuli x delay plans x capacities x capture times x accumulation tables.
+the C03 kernel space.  W2: circuits x stimuli x delay plans x capacities x capture times (incl. 0.0, -1 and a second capture on the same object) x accumulation tables.
 """
 import itertools
 import traceback
@@ -15,9 +15,9 @@ from checks import wave_common as W
 
 PROP = 'C13'
 LEVEL = 'exploration'
-RULE = ('capture: every waveform (initial value x subset of a 4-point grid, with plain and overflow terminator, capacities 4/8) x capture times on and between grid points '
-        'and the default; kernel: C03 W1 space, rise/fall counts vs decoded output and comparison with a capacity-64 run whenever no overflow is flagged; simulator: family circuits x '
-        'stimuli x delay plans x capacities (incl. overflowing) x capture times x accumulation-control tables (one accumulator, one per line, shared, weights, -1, both table heights); '
+RULE = ('capture: every waveform (initial value x subset of a 4-point grid, with plain and overflow terminator, capacities 4/8) x capture times on and between grid points, '
+        '0.0, negative and the default; kernel: C03 W1 space, rise/fall counts vs decoded output and comparison with a capacity-64 run whenever no overflow is flagged; simulator: family circuits x '
+        'stimuli x delay plans x capacities (incl. overflowing) x capture times (incl. 0.0, -1 and a second capture on the same object) x accumulation-control tables (one accumulator, one per line, shared, weights, -1, both table heights); '
         'distinct_nontrivial = distinct (case, captured tuple / accumulator vector) signatures')
 ASSUMPTIONS = ['capture with sd = 0 (deterministic); sampled capture (sd > 0) is outside the bounded space',
                'value at time T = initial value xor parity of the transitions strictly before T',
